@@ -91,11 +91,9 @@ def run(chk, prog):
     D = prog.cls("Diff", INC)
     evd = Evaluator(prog)
     for meth, tang in (("no_change", "NoChange"), ("unknown_change", "UnknownChange")):
-        rr = evd.eval_fn(D.methods[meth], D.module, D)
-        t = rr.ret
-        okd = is_call(t, "tree_diff") and len(t[2]) == 2 and t[2][0] == ("call", ("attr", DIFFG, "tree_primal"), (P("tree"),), ()) and is_t(t[2][1], "treemap") and t[2][1][2] == (t[2][0],) \
-            and is_t(t[2][1][1], "global") and t[2][1][1][1].endswith("." + tang)
-        chk.require(okd, "TAG-PROPAGATE", f"Diff.{meth}", f"every leaf tagged {tang}; primal preserved", derived=show(t)[:200], expected=f"tree_diff(tree_primal(tree), tree_map(lambda _: {tang}, primal))", where=f"{D.module.rel}:{D.methods[meth].lineno}")
+        from ._diff import constant_tagging
+        okd, txt_ = constant_tagging(prog, meth, tang)
+        chk.require(okd, "TAG-PROPAGATE", f"Diff.{meth}", f"every leaf tagged {tang}; primal preserved", derived=txt_, expected=f"tree_diff(tree_primal(tree), tree_map(lambda _: {tang}, primal))", where=f"{D.module.rel}:{D.methods[meth].lineno}")
     rr = evd.eval_fn(D.methods["tree_diff"], D.module, D)
     t = rr.ret
     okt = is_t(t, "treemap") and t[2] == (P("tree"), P("tangent_tree")) and t[1] == ("ctor", "Diff", (("leaf", P("tree")), ("leaf", P("tangent_tree"))), ())
